@@ -465,6 +465,11 @@ def gather(ctx):
         loopy = [g for g in sysg if "maybe_loop" in g.tags]
         rest = [g for g in sysg if "maybe_loop" not in g.tags]
         sysg = rnd.sample(loopy, min(len(loopy), 600)) + rnd.sample(rest, min(len(rest), 700))
+    else:
+        # quick: every loop construct of the shared systematic corpus, every other one of the rest
+        loopy = [g for g in sysg if g.tags & {"loop", "maybe_loop"}]
+        rest = [g for g in sysg if not (g.tags & {"loop", "maybe_loop"})]
+        sysg = loopy + rest[::2]
     grams = list(sysg)
     nr = 40 if tier == "quick" else 200
     grams += corpus.random_grammars(seed, nr, start_gid=200000)
@@ -610,6 +615,15 @@ def run(ctx):
                            "(%d of the explored inputs loop; %d certified grammars loop in this run)" % (w, 20000, 1500, nloop, nviol),
                       {"grammar_cpp": g.cpp(), "gid": g.gid, "input_hex": hexs(w), "alphabet": g.alphabet, "maxlen": maxlen,
                        "how": "bin/check --replay <this file>: compiles the grammar with harness/c11_harness.hpp against the tree, prints analyze<G>(-1) and the verdict on the input"})
+    if ctx.tier == "thorough":
+        # independent re-check of the compiled proofs by the stand-alone checker (DESIGN 3.3)
+        with vlib.Lock("coq"):
+            rc, out = vlib.sh(["timeout", "900", "coqchk", "-silent", "-o", "-Q", ".", "PegtlV", "PegtlV.Properties_C11"], cwd=vlib.COQ, timeout=960)
+        tail = " ".join(out.split())[-400:]
+        if rc != 0 or "Axioms: <none>" not in " ".join(out.split()):
+            ctx.diff("coqchk -o PegtlV.Properties_C11 did not report an axiom-free, fully checked context", tail)
+        else:
+            ctx.note("coqchk -o PegtlV.Properties_C11: Axioms: <none>")
     ctx.note("C11 statistics: %s" % ", ".join("%s=%d" % kv for kv in sorted(stats.items())))
     ctx.note("converse (not required by the property): of %d grammars with problems reported, %d do loop on some explored input, %d show no loop up to length %d "
              "(analysis is conservative there, e.g. sor alternatives that can never be reached, predicates)" % (stats["flagged"], stats["flagged_and_loops"], stats["flagged_no_loop_found"], maxlen))
